@@ -2,7 +2,7 @@
 import importlib
 import sys
 
-MODELS = ['refvlq']
+MODELS = ['refvlq', 'refsm', 'refjs']
 
 
 def main():
